@@ -20,7 +20,9 @@ PART = int(os.environ.get("VERIF_PART", "-1"))
 NMAX = int(os.environ.get("VERIF_NMAX", "3"))
 CANARY = os.environ.get("VERIF_CANARY", "")
 
-SELECTORS = ["pkg.Svc.A", "pkg.Svc.B", "pkg.Svc.Missing", "pkg.Svc.S"]
+# index 4: an existing method written protobuf-style with a leading dot -- NOT a method name of the API (the templates
+# look settings up under the undotted name), so it has to be rejected like any unknown selector
+SELECTORS = ["pkg.Svc.A", "pkg.Svc.B", "pkg.Svc.Missing", "pkg.Svc.S", ".pkg.Svc.A"]
 FIELDS = ["f1", "f2", "sub.f1"]
 
 # formatting stub: the error text is rendered with yaml.dump (pure-Python, thousands of traced steps);
@@ -93,7 +95,7 @@ def run(n, s0, s1, s2, nf0, nf1, nf2, a0, b0, a1, b1, a2, b2, cs, ss, f1_exists,
             err = True              # duplicate selectors are rejected
             continue
         seen.append(sel)
-        if sel == 2:
+        if sel in (2, 4):
             err = True              # the method must exist
             continue
         if nf == 0:
@@ -125,7 +127,7 @@ def in_part1(s0):
 def validate_single(sel: int, nf: int, a: int, b: int, cs: bool, ss: bool,
                     f1_exists: bool, f1_type: int, f1_required: bool, f1_fmt: int) -> bool:
     """
-    pre: in_part1(sel) and 0 <= sel <= 3 and 0 <= nf <= 2 and 0 <= a <= 2 and 0 <= b <= 2
+    pre: in_part1(sel) and 0 <= sel <= 4 and 0 <= nf <= 2 and 0 <= a <= 2 and 0 <= b <= 2
     pre: f1_type == 9 or f1_type == 5 or f1_type == 12
     pre: 0 <= f1_fmt <= 2
     post: _
@@ -140,7 +142,7 @@ PICKS = [(0, 0, 0), (1, 1, 1), (1, 2, 2), (1, 0, 0), (2, 1, 0)]   # (nf, a, b): 
 def validate_multi(n: int, s0: int, s1: int, s2: int, p0: int, p1: int, p2: int, cs: bool, f1_required: bool) -> bool:
     """
     pre: 1 <= n <= NMAX and in_part1(s0)
-    pre: 0 <= s0 <= 3 and 0 <= s1 <= 3 and 0 <= s2 <= 3
+    pre: 0 <= s0 <= 4 and 0 <= s1 <= 4 and 0 <= s2 <= 4
     pre: 0 <= p0 <= 4 and 0 <= p1 <= 4 and 0 <= p2 <= 4
     pre: n >= 2 or (s1 == 0 and p1 == 0)
     pre: n >= 3 or (s2 == 0 and p2 == 0)
@@ -149,7 +151,7 @@ def validate_multi(n: int, s0: int, s1: int, s2: int, p0: int, p1: int, p2: int,
     # several entries (duplicates, order, which entry is at fault); f1 is a uuid4 string that may be required.
     # Every input is a selector: realise the model, then run the real validator untraced (CrossHair still
     # enumerates all models with z3 and confirms only when the decision tree is exhausted).
-    n, s0, s1, s2 = conc(n, 1, 3), conc(s0, 0, 3), conc(s1, 0, 3), conc(s2, 0, 3)
+    n, s0, s1, s2 = conc(n, 1, 3), conc(s0, 0, 4), conc(s1, 0, 4), conc(s2, 0, 4)
     p0, p1, p2 = conc(p0, 0, 4), conc(p1, 0, 4), conc(p2, 0, 4)
     cs, f1_required = bool(cs), bool(f1_required)
     with untraced():
